@@ -28,7 +28,8 @@
 (***************************************************************************)
 EXTENDS UlpiCommon
 
-CONSTANTS MaxStart      \* idle-bus cycles the link may take to present the TXCMD
+CONSTANTS MaxStart,     \* idle-bus cycles the link may take to present the TXCMD
+          Startup       \* the link leaves the bus alone for this many cycles after reset (records with RESETB)
 
 VARIABLES pdir,     \* DIR of the previous cycle
           ts,       \* link transmit state: "idle" | "cmd" | "data" | "other"
@@ -37,11 +38,12 @@ VARIABLES pdir,     \* DIR of the previous cycle
           utmiAcc,  \* ghost: UTMI bytes accepted in the packet in progress
           phyAcc,   \* ghost: bytes the PHY accepted in the packet in progress (TXCMD first)
           startAge, \* consecutive idle-bus cycles with tx_valid high and no TXCMD yet
+          sinceRst, \* cycles since reset, saturating at Startup
           npkts,    \* completed transmissions
           lastDone, \* ghost: [u, p, m] of the last completed transmission
           tin, tout, tchk
 
-xvars == <<pdir, ts, pphase, hold, utmiAcc, phyAcc, startAge, npkts, lastDone, tin, tout, tchk>>
+xvars == <<pdir, ts, pphase, hold, utmiAcc, phyAcc, startAge, sinceRst, npkts, lastDone, tin, tout, tchk>>
 
 B(x) == IF x THEN 1 ELSE 0
 
@@ -68,6 +70,7 @@ LegalIn(i) == LegalPhy(i) /\ LegalUtmi(i)
 (* Ref: first violated clause for outputs o = [do, oe, stp, txr] given inputs i *)
 Failing(i, o) ==
     IF o.oe # 1 - i.dir THEN "oe_not_inverse_of_dir"
+    ELSE IF sinceRst < Startup /\ i.dir = 0 /\ (CmdKind(o.do) = 1 \/ o.txr = 1) THEN "tx_before_phy_ready"
     ELSE IF ts \in {"idle", "other"} /\ i.txv = 1 /\ o.txr = 1 /\ ~(ts = "idle" /\ i.dir = 0 /\ pdir = 0 /\ CmdKind(o.do) = 1)
          THEN "tx_ready_without_phy"
     ELSE IF ts = "idle" THEN
@@ -102,7 +105,7 @@ NoTOut == [do |-> 0, oe |-> 1, stp |-> 0, txr |-> 0]
 
 TxInit == /\ pdir = 0 /\ ts = "idle" /\ pphase = "idle"
           /\ hold = [v |-> 0, d |-> 0, r |-> 0, m |-> 0]
-          /\ utmiAcc = <<>> /\ phyAcc = <<>> /\ startAge = 0 /\ npkts = 0
+          /\ utmiAcc = <<>> /\ phyAcc = <<>> /\ startAge = 0 /\ sinceRst = 0 /\ npkts = 0
           /\ lastDone = [u |-> <<>>, p |-> <<>>, m |-> 0]
           /\ tin = NoTIn /\ tout = NoTOut /\ tchk = "ok"
 
@@ -147,6 +150,7 @@ TxStep(i, o) ==
                     ELSE IF cmdAcc THEN <<o.do>>
                     ELSE IF datAcc THEN Append(phyAcc, o.do) ELSE phyAcc
        /\ startAge' = IF ts = "idle" /\ owns /\ pdir = 0 /\ i.txv = 1 /\ CmdKind(o.do) = 0 THEN startAge + 1 ELSE 0
+       /\ sinceRst' = Min(sinceRst + 1, Startup)
        /\ npkts' = IF ends THEN npkts + 1 ELSE npkts
        /\ lastDone' = IF ends THEN [u |-> utmiAcc, p |-> phyAcc, m |-> i.opm] ELSE lastDone
 
